@@ -1,8 +1,8 @@
 (* JsonRun.v — the single entry point of the C05 models for the generic runner:
-   (0 json-case) | (1 memfs-case) | (2 memseq-case) | (3 text-case). *)
+   (0 json-case) | (1 memfs-case) | (2 memseq-case) | (3 text-case) | (4 options-case). *)
 From Coq Require Import ZArith List.
 Import ListNotations.
-From PG Require Import Common.Tr Model.Json Model.JsonText Model.MemFS Model.MemSeq.
+From PG Require Import Common.Tr Model.Json Model.JsonText Model.JsonOpts Model.MemFS Model.MemSeq.
 Local Open Scope Z_scope.
 
 (* the text layer with finite floats left out: they are never printed by the cases of kinds 7 and 8 *)
@@ -37,5 +37,6 @@ Definition run (c : tr) : tr :=
   | L [I 1; x] => run_memfs x
   | L [I 2; x] => run_memseq x
   | L [I 3; x] => run_text x
+  | L [I 4; x] => run_opts x
   | _ => ebad
   end.
